@@ -250,14 +250,25 @@ pub fn replay_parse(rep: &mut Report, rec: &J) {
 		if it.polled_after_end {
 			rep.count("polled_after_end");
 		}
+		// informational: the specification's single-pass parser needs `maxp` characters;
+		// an iterator hands out each character once by construction, so reading further
+		// ahead is not a violation of C03
 		if it.pulls as u64 > maxp {
-			rep.mismatch("C03.pulls", json!({"what": "input pulled more often than once per character", "input": ctx, "pulls": it.pulls, "max": maxp, "polled_after_end": it.polled_after_end}));
+			rep.count("pulled_beyond_spec_need");
+		}
+		if it.pulls > items.len() {
+			rep.mismatch("C03.pulls", json!({"what": "more characters pulled than the input holds", "input": ctx, "pulls": it.pulls}));
 		}
 	}
 	if exp["ok"].as_bool() == Some(true) {
 		rep.count("accepted");
-		if let Ok((v, _)) = Value::parse_str_with(&s, o) {
+		if let Ok((v, cm)) = Value::parse_str_with(&s, o) {
 			check_lookups(rep, &ctx, &v);
+			if rec.get("nav").is_some() && project(&v) == exp["v"] && project_cm(&cm) == exp["cm"] {
+				if let Err(p) = guarded(|| crate::navv::check_nav(rep, &ctx, &s, &v, &cm, &rec["nav"])) {
+					rep.mismatch("C11.nav", json!({"what": "navigation panicked", "input": ctx, "panic": p}));
+				}
+			}
 		}
 	} else {
 		rep.count("rejected");
@@ -265,4 +276,192 @@ pub fn replay_parse(rep: &mut Report, rec: &J) {
 	rep.note_distinct(hash_of(&(s.as_str(), o)));
 	let n = rep.counters["parse_vectors"];
 	rep.sample(9973, n, || json!({"input": show(&s), "o": rec["o"], "expected": exp}));
+}
+
+// ------------------------------------------------------------------------- impl -> spec
+
+fn corpus() -> Vec<String> {
+	let mut out = vec![];
+	if let Ok(rd) = std::fs::read_dir("/repo/tests/inputs") {
+		let mut paths: Vec<_> = rd.filter_map(|e| e.ok()).map(|e| e.path()).collect();
+		paths.sort();
+		for p in paths {
+			if let Ok(bytes) = std::fs::read(&p) {
+				if bytes.len() <= 400 {
+					if let Ok(s) = String::from_utf8(bytes) {
+						out.push(s)
+					}
+				}
+			}
+		}
+	}
+	out
+}
+
+fn observed_outcome(s: &str, o: Options) -> (J, usize, bool) {
+	let items: Vec<DecodedChar> = s.chars().map(DecodedChar::from_utf8).collect();
+	let mut it = Counting::new(&items);
+	let r = guarded(|| Value::parse_with(&mut it, o));
+	let mut agree = true;
+	let got = project_result(r);
+	// the other entry points must agree with the iterator one
+	for (_, other) in run_all_str(s, o) {
+		if other.get("cm").is_some() || other.get("err").is_some() {
+			if other.get("cm").is_some() && other != got || other.get("err").is_some() && other["err"] != got["err"] {
+				agree = false;
+			}
+		} else if other.get("v") != got.get("v") || other.get("panic").is_some() {
+			agree = false;
+		}
+	}
+	(got, it.pulls, agree)
+}
+
+fn opts_j(o: &Options) -> J {
+	json!([o.accept_truncated_surrogate_pair, o.accept_invalid_codepoints])
+}
+
+const ALL_OPTS: [Options; 4] = [
+	Options { accept_truncated_surrogate_pair: false, accept_invalid_codepoints: false },
+	Options { accept_truncated_surrogate_pair: true, accept_invalid_codepoints: false },
+	Options { accept_truncated_surrogate_pair: false, accept_invalid_codepoints: true },
+	Options { accept_truncated_surrogate_pair: true, accept_invalid_codepoints: true },
+];
+
+/// Record real parses.  `--fine k`: the first k documents are recorded at the
+/// grain of pulls and fragment events (hooks), the others as one `doc` event.
+pub fn record(args: &Args) {
+	let n = args.num("n", 300);
+	let fine = args.num("fine", 30);
+	let out = args.get("out").unwrap_or_else(|| tool_error("record-parse: --out required"));
+	let mut rng = Rng::new(seed() ^ 0x9a45e);
+	let g = crate::gen::DocGen::new();
+	let corpus = corpus();
+	let mut lines: Vec<J> = vec![];
+	let mut lookup_fail = 0u64;
+	let mut disagree: Vec<J> = vec![];
+	for i in 0..n {
+		// input families: generated valid documents, damaged documents, corpus and damaged corpus
+		let base = match i % 5 {
+			0 | 1 | 2 => g.doc(&mut rng, 1 + i % 4),
+			_ if !corpus.is_empty() => rng.pick(&corpus).clone(),
+			_ => g.doc(&mut rng, 2),
+		};
+		let text = match i % 3 {
+			0 => base,
+			1 => g.damage(&mut rng, &base),
+			_ => {
+				let d = g.damage(&mut rng, &base);
+				if rng.chance(1, 2) { g.damage(&mut rng, &d) } else { d }
+			}
+		};
+		// lenient options matter for surrogates: sprinkle unpaired escapes into some strings
+		let text = if i % 7 == 3 { text.replacen('"', *rng.pick(&["\"\\uD800", "\"\\uDC00", "\"\\uD83D\\uD83D\\uDE00", "\"\\uDBFF\\u0041"]), 1) } else { text };
+		let w = str_to_cps(&text);
+		if i < fine {
+			let o = ALL_OPTS[i % 4];
+			lines.push(json!({"ev": "start", "o": opts_j(&o)}));
+			let items: Vec<DecodedChar> = text.chars().map(DecodedChar::from_utf8).collect();
+			let mut it = Counting::new(&items);
+			json_syntax::verif::start();
+			let r = guarded(|| Value::parse_with(&mut it, o));
+			let evs = json_syntax::verif::take();
+			for e in evs {
+				lines.push(match e {
+					json_syntax::verif::Event::Mark(c, len) => json!({"ev": "pull", "c": c, "len": len}),
+					json_syntax::verif::Event::BeginFragment { index, position } => json!({"ev": "begin", "i": index, "pos": position}),
+					json_syntax::verif::Event::EndFragment { index, position, volume } => json!({"ev": "end", "i": index, "pos": position, "vol": volume}),
+				});
+			}
+			lines.push(json!({"ev": "done", "out": project_result(r), "w": w}));
+		} else {
+			let os: &[Options] = if i % 2 == 0 { &ALL_OPTS[..1] } else { &ALL_OPTS[..] };
+			for o in os {
+				let (got, pulls, agree) = observed_outcome(&text, *o);
+				if !agree {
+					disagree.push(json!({"w": w, "o": opts_j(o)}));
+				}
+				if got["ok"] == true {
+					if let Ok((v, _)) = Value::parse_str_with(&text, *o) {
+						let mut rep = Report::new();
+						check_lookups_pub(&mut rep, &json!({"w": w}), &v);
+						if !rep.mismatch_counts.is_empty() {
+							lookup_fail += 1;
+						}
+					}
+				}
+				lines.push(json!({"ev": "doc", "w": w, "o": opts_j(o), "out": got, "pulls": pulls}));
+			}
+		}
+	}
+	use std::io::Write;
+	let mut f = std::fs::File::create(out).unwrap_or_else(|e| tool_error(&format!("create {out}: {e}")));
+	for l in &lines {
+		writeln!(f, "{}", l).unwrap();
+	}
+	let docs = lines.iter().filter(|l| l["ev"] == "doc" || l["ev"] == "done").count();
+	println!("SUMMARY {}", json!({"events": lines.len(), "parses": docs, "lookup_failures": lookup_fail, "entrypoint_disagreements": disagree,
+		"samples": lines.iter().filter(|l| l["ev"] == "doc").take(2).collect::<Vec<_>>()}));
+}
+
+pub fn check_lookups_pub(rep: &mut Report, ctx: &J, v: &Value) {
+	check_lookups(rep, ctx, v)
+}
+
+// ------------------------------------------------------------------------- byte input
+
+fn bytes_of(j: &J) -> Vec<u8> {
+	j.as_array().unwrap().iter().map(|b| b.as_u64().unwrap() as u8).collect()
+}
+
+/// a fallible character stream built with the standard library's validation:
+/// the characters of the longest valid prefix, then one `Err(())`
+fn fallible_chars(bytes: &[u8]) -> Vec<Result<char, ()>> {
+	match std::str::from_utf8(bytes) {
+		Ok(s) => s.chars().map(Ok).collect(),
+		Err(e) => {
+			let valid = std::str::from_utf8(&bytes[..e.valid_up_to()]).unwrap();
+			valid.chars().map(Ok).chain(std::iter::once(Err(()))).collect()
+		}
+	}
+}
+
+fn stream_as_utf8(mut j: J) -> J {
+	// a stream error of the fallible iterator is the analogue of InvalidUtf8 on the slice path
+	if j["err"]["kind"] == "stream" {
+		j["err"]["kind"] = json!("utf8");
+	}
+	j
+}
+
+pub fn replay_bytes(rep: &mut Report, rec: &J) {
+	rep.count("bytes_vectors");
+	let bytes = bytes_of(&rec["b"]);
+	let o = options(&rec["o"]);
+	let strict = is_strict(&o);
+	let exp = &rec["out"];
+	let ctx = json!({"bytes": rec["b"], "lossy_text": show(&String::from_utf8_lossy(&bytes)), "o": rec["o"], "vector": rec});
+	let mut results = vec![("parse_slice_with", project_result(guarded(|| Value::parse_slice_with(&bytes, o))))];
+	if strict {
+		results.push(("parse_slice", project_result(guarded(|| Value::parse_slice(&bytes)))));
+	}
+	let stream = fallible_chars(&bytes);
+	results.push(("parse_utf8_with(fallible iterator)", stream_as_utf8(project_result(guarded(|| Value::parse_utf8_with(stream.iter().cloned(), o))))));
+	if let Ok(s) = std::str::from_utf8(&bytes) {
+		results.push(("parse_str_with", project_result(guarded(|| Value::parse_str_with(s, o)))));
+	}
+	rep.add("parse_calls", results.len() as u64);
+	for (name, got) in &results {
+		// reuse the comparison of `parse` vectors, with byte-specific aspect names
+		let mut sub = Report::new();
+		compare_outcome(&mut sub, &ctx, name, exp, got, strict);
+		for (aspect, items) in sub.mismatches {
+			for it in items {
+				rep.mismatch(&aspect, it);
+			}
+		}
+	}
+	rep.note_distinct(hash_of(&(bytes, rec["o"].to_string())));
+	let n = rep.counters["bytes_vectors"];
+	rep.sample(4001, n, || json!({"bytes": rec["b"], "expected": exp}));
 }
